@@ -247,6 +247,25 @@ func checkC11(c c11Case, rec *Rec) *Violation {
 				fmt.Fprintf(&sb, "N %q\n", sortedKeys(setOf(netTexts(ne.MatchAll(mkReq(q))))))
 			}
 		}
+		// the combined engine (network and cosmetic index over one storage), on a storage of its own
+		est2, ecleanup2, eerr2 := c11Storage(c.Lists, file)
+		if eerr2 != nil {
+			ecleanup()
+			cleanup()
+			return viol(id, "C11:harness", "%s storage: %v", name, eerr2)
+		}
+		eng := urlfilter.NewEngine(est2)
+		for _, q := range c.Reqs {
+			if q.Host {
+				cr := eng.GetCosmeticResult(q.Hostname, rules.CosmeticOptionAll)
+				fmt.Fprintf(&sb, "E C %q %q\n", sortedKeys(setOf(cr.ElementHiding.Generic)), sortedKeys(setOf(cr.ElementHiding.Specific)))
+			} else if b := eng.MatchRequest(mkReq(q)).GetBasicResult(); b != nil {
+				fmt.Fprintf(&sb, "E N %q\n", b.Text())
+			} else {
+				sb.WriteString("E N -\n")
+			}
+		}
+		ecleanup2()
 		answers[bi] = sb.String()
 		ecleanup()
 		cleanup()
